@@ -59,7 +59,7 @@ FORMATS = {
                     utf8=True, options=[b"", b"xar:compression=none", b"xar:compression=bzip2", b"xar:checksum=md5", b"xar:compression=xz"]),
     "iso9660": dict(seekable=True, codes={0x40001}, types=[REG, DIR, LNK, CHR, BLK, FIFO, SOCK], names="tree", linkmax=200, idmax=2**32 - 1,
                     tmax=2**32 - 1, fields={"pathname", "symlink", "perm", "filetype", "uid", "gid", "size", "mtime", "rdev"},
-                    order="set", devmax=2**31 - 1, root=True, options=[b"iso9660:rockridge=strict", b"iso9660:rockridge=strict,joliet",
+                    order="set", devmax=2**31 - 1, root=True, options=[b"iso9660:rockridge=strict", b"iso9660:rockridge=strict,joliet", b"iso9660:rockridge=strict,zisofs=direct",
                                                                     b"iso9660:rockridge=strict,iso-level=4"]),
     "mtree":   dict(codes={0x80000}, types=[REG, DIR, LNK, CHR, BLK, FIFO], names="tree", linkmax=400, idmax=2**62, tmax=2**40,
                     ugmax=100, nobody=True,
@@ -145,7 +145,7 @@ def gen_path(r, fmt, spec, k, ft):
     n = min(r.choice([1, 8, 20, 99, 100, 101, 155, 156, 255, 256, 300]), spec.get("namemax", 10**6))
     return deep_name(r, n, utf8) if n > 30 else rname(r, n, utf8)
 
-def gen_sequence(r, fmt, spec):
+def gen_sequence(r, fmt, spec, big=0.06):
     """list of entry dicts, all inside what the format is documented to hold"""
     n = 1 if spec.get("single") else r.choice([1, 2, 3, 4, 6])
     idmax = spec.get("idmax", 0)
@@ -186,6 +186,10 @@ def gen_sequence(r, fmt, spec):
         if ft == REG:
             size = r.choice(BODY_SIZES)
             body = bytes(r.randrange(256) for _ in range(size)) if r.random() < 0.7 else bytes([65 + k]) * size
+            if r.random() < big:
+                # a body whose compressed form is larger than the writers' internal 64 KiB buffers (2:1 compressible)
+                size = r.choice([70001, 140000, 200000])
+                body = bytes(r.choice(b"0123456789abcdef") for _ in range(size))
             if spec.get("single") and body:
                 body = b"R" + body[1:]       # a raw stream that starts with zeros is, correctly, taken for a tar end mark
         if size > 1 and r.random() < 0.12 and spec.get("pads_short_body"):
